@@ -35,7 +35,11 @@ def handleBrd (dict : ByteArray) (kv : List (String × String)) : String :=
       | .ok _, _ => "eof"
       | v, some _ => brotliClass v
       | _, none => "rej"
-    s!"{hexOfBytes (r.out.extract 0 64).toList}:{r.out.size}:{hex64 (fnv1a64 r.out)}:{cls}{used}"
+    -- how much a decoder hands out before it rejects an invalid stream is its own business
+    -- (a zero-bit code lets a 100-byte input describe 16 MiB): of a rejected input only the
+    -- first 64 KiB of output are compared
+    let out := if cls == "rej" then r.out.extract 0 65536 else r.out
+    s!"{hexOfBytes (out.extract 0 64).toList}:{out.size}:{hex64 (fnv1a64 out)}:{cls}{used}"
   | none => "bad-line"
 
 /-- kind `btr`: one static-dictionary transform applied to a word. -/
